@@ -28,18 +28,21 @@ COMMON_NOTE = ("Trusted: Lean 4.33 kernel (axioms audited per theorem: subset of
 
 PROPS["C03"] = dict(
     title="Name references follow every rename",
-    modules=["Kust.Props.C03"],
+    modules=["Kust.Props.C03", "Kust.Props.C03b"],
     theorems=["Kust.C03.rename_records", "Kust.C03.storePrev_origName", "Kust.C03.rules_write_no_identity",
-              "Kust.C03.essential_rules_present", "Kust.Res.layers_no_panic", "Kust.Res.layers_good"],
-    components=["res.layers"],
+              "Kust.C03.essential_rules_present", "Kust.Res.layers_no_panic", "Kust.Res.layers_good",
+              "Kust.C03.unique_candidate_followed", "Kust.C03.no_candidate_untouched", "Kust.C03.picked_is_a_candidate",
+              "Kust.C03.picked_bore_the_name"],
+    components=["res.layers", "nameref.select"],
     oracle=True,
     n_corr={"quick": 3000, "thorough": 30000}, n_oracle={"quick": 600, "thorough": 6000},
-    technique="Lean 4 proof (previous-id bookkeeping invariant over any layer chain; decide over the regenerated rule table) + Go/Lean correspondence of the renaming plugins + reference-edge oracle on whole builds",
+    technique="Lean 4 proof (previous-id bookkeeping invariant over any layer chain; the referent selection selectReferral: a unique bearer of the written name is followed whatever the prefix/suffix contexts, whatever is picked bore the name and has the rule's kind; decide over the regenerated rule table) + Go/Lean correspondence of the renaming plugins and of nameref.Filter's selection on candidates with arbitrary rename histories + reference-edge oracle on whole builds (chains and sibling sub-trees)",
     level_text="Theorems: through any number of namespace/prefix/suffix layers the loaded name stays the first recorded name (rename_records), "
                "the bookkeeping never panics on named resources, no rule of the regenerated table writes an identity field and the rules the property "
-               "names are present. The sieve selectReferral is not modelled: reference edges of generated graphs are checked on real whole builds.",
-    level_note=COMMON_NOTE + "Not modelled (oracle only): nameref.Filter/selectReferral, hash renaming, layered accumulation.",
-    assumptions=["IsClusterScoped is a parameter cs", "selectReferral and the accumulation order are covered by the whole-build edge oracle only"],
+               "names are present; selectReferral (scalar name fields) is modelled and proved: the only resource that ever bore the written name is the one followed. "
+               "Which resources are candidates at which layer (accumulation order, name+namespace map fields) is checked on real whole builds only.",
+    level_note=COMMON_NOTE + "Not modelled (oracle only): setMapping (name+namespace fields), hash renaming, layered accumulation.",
+    assumptions=["IsClusterScoped is a parameter cs", "the accumulation order and map-valued reference fields are covered by the whole-build edge oracle only"],
     design_ref="DESIGN.md §5 C03",
 )
 PROPS["C07"] = dict(
